@@ -450,6 +450,24 @@ pub fn run_plan_here(plan: &Plan) -> Outcome {
         st.tasks = vec![TaskState::default(); plan.threads.len() + 1];
         st.ev(&format!("seed {} stratum {}", plan.exec_seed, plan.stratum));
     }
+    if plan.heap_perturb > 0 {
+        let mut r = Rng::new(crate::rng::mix(plan.exec_seed, 0x4ea9));
+        let mut keep: Vec<Vec<u8>> = Vec::new();
+        for i in 0..plan.heap_perturb {
+            let size = match r.below(4) {
+                0 => r.range(8, 64),
+                1 => r.range(64, 512),
+                2 => r.range(512, 4096),
+                _ => r.range(4096, 70_000),
+            };
+            let v = vec![i as u8; size];
+            if i % 2 == 0 {
+                keep.push(v);
+            }
+        }
+        state().ev(&format!("fault heap_layout blocks={}", plan.heap_perturb));
+        std::mem::forget(keep);
+    }
     seams::set_hash_base(plan.hash_base);
     match &plan.env_before {
         Some(v) => std::env::set_var("PRQL_VERSION_OVERRIDE", v),
